@@ -250,7 +250,7 @@ def geom_ok(e, p):
     return bool(inside) if e["inout"] == "in" else bool(not inside)
 
 
-class _Timeout(Exception):
+class _Timeout(BaseException):
     pass
 
 
@@ -351,7 +351,7 @@ def _e2e(arg):
     np.random.seed(sd)
     random.seed(sd)
     signal.signal(signal.SIGALRM, _alarm)
-    signal.alarm(45)
+    signal.setitimer(signal.ITIMER_REAL, 45, 5)
     pers.generate_end_end_distances = gen
     try:
         with tempfile.TemporaryDirectory(prefix="verif_c07_", dir="/var/tmp") as wd:
@@ -374,7 +374,7 @@ def _e2e(arg):
         return {"noverdict": "timeout"}
     finally:
         pers.generate_end_end_distances = o_gen
-        signal.alarm(0)
+        signal.setitimer(signal.ITIMER_REAL, 0)
 
 
 def validate(ck, traces, name, expect_reject=False):
